@@ -474,13 +474,13 @@ PROPS['C11']['jobs'] += _mt('h_lanes', 'fast5', 'tsan5', 'c11', 200_000, 10_000_
 PROPS['C13']['jobs'] += _mt('h_lanes', 'fast2', 'tsan2', 'c13', 60_000, 3_000_000)
 PROPS['C14']['jobs'] += _mt('h_lanes', 'fast5', 'tsan5', 'c14', 60_000, 3_000_000)
 PROPS['C06']['jobs'] += _mt('h_poseidon', 'fast5', 'tsan5', 'c06.perm,c06.backsolved,c06.partial', 40_000, 2_000_000)
-PROPS['C07']['jobs'] += _mt('h_poseidon', 'fast5', 'tsan5', 'c07.random', 4_000, 200_000)
-PROPS['C08']['jobs'] += _mt('h_poseidon', 'fast5', 'tsan5', 'c08.random', 1_500, 80_000, qt=300, tt=8_000)
+PROPS['C07']['jobs'] += _mt('h_poseidon', 'fast5', 'tsan5', 'c07.random', 1_000, 200_000, qt=80, tt=10_000)
+PROPS['C08']['jobs'] += _mt('h_poseidon', 'fast5', 'tsan5', 'c08.random', 500, 80_000, qt=120, tt=8_000)
 PROPS['C09']['jobs'] += _mt('h_cubic', 'fast2', 'tsan2', None, 100_000, 5_000_000)
 PROPS['C10']['jobs'] += _mt('h_scalar2', 'fast2', 'tsan2', 'c10', 100_000, 5_000_000)
 PROPS['C15']['jobs'] += _mt('h_scalar2', 'fast2', 'tsan2', 'c15', 200_000, 10_000_000)
-PROPS['C16']['jobs'] += _mt('h_cubic_batch', 'fast5', 'tsan5', None, 100_000, 5_000_000)
-PROPS['C17']['jobs'] += _mt('h_wrappers', 'fast5', 'tsan5', None, 100_000, 5_000_000)
+PROPS['C16']['jobs'] += _mt('h_cubic_batch', 'fast5', 'tsan5', None, 40_000, 5_000_000, qt=4_000)
+PROPS['C17']['jobs'] += _mt('h_wrappers', 'fast5', 'tsan5', None, 30_000, 5_000_000, qt=3_000)
 for _p in ('C01', 'C02', 'C06', 'C07', 'C08', 'C09', 'C10', 'C11', 'C13', 'C14', 'C15', 'C16', 'C17'):
     PROPS[_p]['rule'] += _MT_RULE
     PROPS[_p]['expected_classes'] = list(PROPS[_p].get('expected_classes', [])) + ['concurrent:callers:several-threads-inside-the-routine-at-once']
@@ -518,8 +518,8 @@ PROPS['C15']['jobs'] += _mtcold('h_scalar2', 'fast2', 'c15', 4_000, 200_000)
 # (each with its own objects and buffers) -- the same @mt properties as above, charged to C12 as well
 PROPS['C12']['jobs'] += [J('h_ntt', 'tsan2', 300, 10_000, only='c03.random,c04.random,c05.random', wq=8, wt=16, args=['--mt'], tag='app-threads-tsan', class_prefix='app-threads-tsan:'),
                          J('h_ntt', 'fast2', 1_500, 80_000, only='c03.random,c04.random,c05.random', wq=8, wt=16, args=['--mt'], tag='app-threads', class_prefix='app-threads:'),
-                         J('h_poseidon', 'tsan5', 300, 8_000, only='c08.random', wq=8, wt=16, args=['--mt'], tag='app-threads-merkle-tsan', class_prefix='app-threads-tsan:'),
-                         J('h_poseidon', 'fast5', 1_500, 80_000, only='c08.random', wq=8, wt=16, args=['--mt'], tag='app-threads-merkle', class_prefix='app-threads:'),
+                         J('h_poseidon', 'tsan5', 120, 8_000, only='c08.random', wq=8, wt=16, args=['--mt'], tag='app-threads-merkle-tsan', class_prefix='app-threads-tsan:'),
+                         J('h_poseidon', 'fast5', 500, 80_000, only='c08.random', wq=8, wt=16, args=['--mt'], tag='app-threads-merkle', class_prefix='app-threads:'),
                          J('h_wrappers', 'tsan5', 500, 20_000, only='c17.par', wq=4, wt=16, args=['--mt'], tag='app-threads-par-tsan', class_prefix='app-threads-tsan:')]
 PROPS['C12']['rule'] += _MT_RULE
 # the AVX2 kernels as compiled into an AVX512 build (code under #ifdef __AVX512__ inside the AVX2 header)
